@@ -185,6 +185,26 @@ def compare(res, prop_tag, engine, case, got, ref, check_header=True, classify=N
     return True
 
 
+JS_TIE = 'js-orderby-tie-order-within-record'
+JS_GROUP = 'js-group-order-json-text'
+
+
+def classify_known_js(mech, case, got, ref):
+    """Known JS findings, recognised by mechanism: the observed rows must equal what the documented faulty rule produces."""
+    if mech != 'rows-differ' or got.get('error') is not None:
+        return None
+    q = case['q']
+    if q.get('order'):
+        ref2 = refsem.run(q, case['A'], case['B'], case['a_names'], case['b_names'], variant='js-tie')
+        if ref2.error is None and rows_match(got['rows'], ref2):
+            return JS_TIE
+    if q.get('group'):
+        ref2 = refsem.run(q, case['A'], case['B'], case['a_names'], case['b_names'], variant='js-group')
+        if ref2.error is None and rows_match(got['rows'], ref2):
+            return JS_GROUP
+    return None
+
+
 # ---------------------------------------------------------------------------------------------------------------
 # engines
 
